@@ -17,6 +17,11 @@ package deadline
 //@ ghost Deadline inflight mathint
 //@ ghost Deadline fired bool
 //@ ghost global lastUntil mathint
+// log of Set calls: which Deadline object was set to which time (the SetXDeadline wrappers of the connection types are
+// specified against it: exactly the given time reaches the read deadline)
+//@ ghost global dlSetN mathint
+//@ ghost global dlSetObj map[mathint]mathint
+//@ ghost global dlSetTo map[mathint]mathint
 
 //@ invariant (d *Deadline) acct: d.pending == d.inflight + ite(d.armed, 1, 0) && d.inflight >= 0
 //@ invariant (d *Deadline) notimer: d.timer == nil ==> !d.armed && d.inflight == 0
@@ -43,7 +48,9 @@ package deadline
 //@   ensures [same] d.done == atlock(d.done) && d.deadline == atlock(d.deadline)
 
 //@ func (d *Deadline) Set(setTo time.Time)
-//@   modifies lastUntil
+//@   modifies lastUntil, dlSetN, dlSetObj, dlSetTo
+//@   ghost at return: dlSetObj[dlSetN] = ref(d); dlSetTo[dlSetN] = setTo; dlSetN = dlSetN + 1
+//@   ensures [logged] dlSetN == old(dlSetN) + 1 && dlSetObj == upd(old(dlSetObj), old(dlSetN), ref(d)) && dlSetTo == upd(old(dlSetTo), old(dlSetN), setTo)
 //@   ghost at lock: assume d.inflight <= 200
 //@   ghost after Stop#1: assume result$ ==> d.armed; d.inflight = d.inflight + ite(d.armed && !result$, 1, 0); d.fired = d.fired || (d.armed && !result$); d.armed = false
 //@   ghost after Reset#1: d.inflight = d.inflight + ite(d.armed && !result$, 1, 0); d.armed = true; d.fired = false
